@@ -482,7 +482,8 @@ pub fn run_limited(args: &[&str], cwd: &Path, as_kib: u64, timeout_s: u64) -> Li
     } else {
         cmd.arg("-c").arg(format!("ulimit -c 0; ulimit -v {as_kib}; exec \"$0\" \"$@\"")).arg(copia_bin()).args(args);
     }
-    cmd.current_dir(cwd).env("RUST_LOG", "off").stdin(Stdio::null()).stdout(Stdio::null()).stderr(Stdio::piped());
+    // (one 64 MiB malloc arena per thread would eat the address-space limit under test by itself)
+    cmd.current_dir(cwd).env("RUST_LOG", "off").env("MALLOC_ARENA_MAX", "2").stdin(Stdio::null()).stdout(Stdio::null()).stderr(Stdio::piped());
     let mut child = cmd.spawn().expect("spawn");
     let mut timed_out = false;
     let status = loop {
